@@ -30,7 +30,8 @@ REQUIRED_COUNTERS = {"obs_exiting": {"quick": 500, "thorough": 5000},
                      "obs_exc_exit": {"quick": 50, "thorough": 500},
                      "frames_with_c_level_manager": {"quick": 300, "thorough": 3000},
                      "frames_with_alias_named_exit": {"quick": 300, "thorough": 3000},
-                     "frames_with_falsy_manager": {"quick": 300, "thorough": 3000}}
+                     "frames_with_falsy_manager": {"quick": 300, "thorough": 3000},
+                     "earlier_results_rechecked": {"quick": 10000, "thorough": 100000}}
 SHARD_TIMEOUT = {"quick": 400, "thorough": 5400}
 INTERPS = ["3.12", "3.11", "3.10", "3.9"]
 
@@ -145,11 +146,25 @@ def worker(spec):
                 break
             if ev[0] in ("es",):
                 break
+        # results are values: an earlier result (of this or of another activation of the same code) must not
+        # change because a later extraction ran
+        kept = state.setdefault("kept", [])
+        for old_st, old_snap, old_where in kept:
+            res.count("earlier_results_rechecked")
+            if snapshot(old_st) != old_snap and not problems:
+                problems.append("the result of an earlier extraction (%s) changed when this one ran: %r -> %r" % (
+                    old_where, old_snap, snapshot(old_st)))
+        if any(fr.contexts for fr in st.frames):
+            kept.append((st, snapshot(st), "run %r step %r" % (state["rseed"], info["step"])))
+            del kept[:-4]
         if problems and not state.get("failed"):
             state["failed"] = True
             res.violation(kind="contexts-mismatch", label=state["label"], run_seed=state["rseed"],
                           step=info["step"], at=repr(value), after=info.get("after"),
                           problems=problems[:4], source=state["src"], interp=interp)
+
+    def snapshot(st):
+        return [[(id(c.obj), c.is_async, c.is_exiting, c.varname, c.start_line) for c in fr.contexts] for fr in st.frames]
 
     nprog = 0
     for label, src, kind in ctxwork.programs(spec, "suspended"):
@@ -164,7 +179,7 @@ def worker(spec):
         nprog += 1
         res.count("programs")
         res.count("programs_" + spec["leg"])
-        state.update(label=label, src=src, failed=False)
+        state.update(label=label, src=src, failed=False, kept=[])
         for r in range(spec.get("runs", 3)):
             state["rseed"] = r
             run = drive.drive_suspended(code, kind, spec.get("seed", 0) * 131 + r, observe)
